@@ -74,6 +74,26 @@ def audit_round(ctx, run, k, s, interp, pfm, csv_path):
                 ctx.violation("contribution-not-allocation-kcals:" + a,
                               "%s round %d: reported kcals-equivalent of %s in month %d is %r, the allocation converted is %r" % (
                                   run.iso, k + 1, a, bad, float(ik[bad]), float(mk[bad])), dict(case, food=a, month=bad))
+    # 1b. the feed and biofuel drawn from each resource, as reported, equal the optimiser's allocation of that resource (percent of the monthly need)
+    NONHUMAN = [("stored_food", "Stored_Food", 1.0, "addStored"), ("outdoor_crops", "Crops_Food", 1.0, "addOutdoor"), ("seaweed", "Seaweed", inp["seaweedKcals"], "addSeaweed"),
+                ("cell_sugar", "Cellulosic_Sugar", 1.0, "addCs"), ("scp", "Methane_SCP", 1.0, "addScp")]
+    need = inp["billionKcalsNeeded"]
+    if need > 0:
+        for attr, var, ratio, flag in NONHUMAN:
+            for use, Use in (("feed", "Feed"), ("biofuels", "Biofuel")):
+                rep = getattr(r, "%s_%s" % (attr, use), None)
+                if rep is None:
+                    ctx.count("nonhuman-series-not-reported:%s_%s" % (attr, use))
+                    continue
+                ip = np.asarray(rep.kcals, dtype=float)
+                alloc = np.array([(s.values.get("%s_%s_Month_%d_Variable" % (var, Use, m)) or 0.0) if inp[flag] else 0.0 for m in range(n)], dtype=float)
+                mp = alloc * ratio / need * 100.0
+                if ip.shape != mp.shape or not np.allclose(mp, ip, rtol=1e-9, atol=1e-9 * max(1.0, float(np.max(np.abs(mp))) if len(mp) else 1.0)):
+                    bad = int(np.argmax(np.abs(mp - ip))) if ip.shape == mp.shape else 0
+                    ctx.violation("contribution-not-allocation:%s_%s" % (attr, use),
+                                  "%s round %d: reported %s drawn from %s in month %d is %r percent of needs, the optimiser allocated %r" % (
+                                      run.iso, k + 1, use, attr, bad, float(ip[bad]) if ip.shape == mp.shape else None, float(mp[bad])), dict(case, food=attr, use=use, month=bad))
+                ctx.count("nonhuman-series-compared")
     # 2. headline = min over months of the sum of the contributions (unrounded: from the kcals-equivalent series, exact units)
     keq_sum = sum(np.asarray(getattr(r, nm).kcals, dtype=float) for nm in keq_names.values()) \
         + np.asarray(r.immediate_outdoor_crops_kcals_equivalent.kcals, dtype=float) \
